@@ -51,7 +51,7 @@ func c14Cells() []map[string]string {
 func init() {
 	Register(&Prop{ID: "C14",
 		Meta: Meta{Level: "exploration",
-			Rule: "cross product wire protocol {net/rpc, gRPC} x transport security {none, static TLS on both sides, static on the host only, on the plugin only, static with mismatched CA, AutoMTLS} x host requests multiplexing {no, yes} x plugin {current, old: does not know the multiplexing variable} x launch {command, custom runner, reattach} x allowed-protocol list {default, net/rpc, gRPC, both} (all valid cells, about 500, in both tiers; thorough adds seeded schedule noise and an 8MiB response); each cell is judged by a compatibility predicate written from the statement: works (start, dispense, call, brokered callback in both directions, ping, 1-8MiB response, unknown plugin name -> error) | start error of the documented kind with the plugin terminated (protocol not allowed, multiplexing unsupported -> ErrGRPCBrokerMuxNotSupported, multiplexing with reattach) | first-use error (any transport-security mismatch) with no call ever answered; never a hang or panic",
+			Rule:       "cross product wire protocol {net/rpc, gRPC} x transport security {none, static TLS on both sides, static on the host only, on the plugin only, static with mismatched CA, AutoMTLS} x host requests multiplexing {no, yes} x plugin {current, old: does not know the multiplexing variable} x launch {command, custom runner, reattach} x allowed-protocol list {default, net/rpc, gRPC, both} (all valid cells, about 500, in both tiers; thorough adds seeded schedule noise and an 8MiB response); each cell is judged by a compatibility predicate written from the statement: works (start, dispense, call, brokered callback in both directions, ping, 1-8MiB response, unknown plugin name -> error) | start error of the documented kind with the plugin terminated (protocol not allowed, multiplexing unsupported -> ErrGRPCBrokerMuxNotSupported, multiplexing with reattach) | first-use error (any transport-security mismatch) with no call ever answered; never a hang or panic",
 			Exhaustive: "all valid cells of the protocol x TLS x mux x old/new plugin x launch x allowed-list product"},
 		Plan: func(tier string, seed uint64, stage int, prev []*h.Result) []*k.Spec {
 			if stage > 0 {
@@ -193,6 +193,9 @@ func runC14(r *h.Run) {
 			}
 		}
 	}
+	if tlsMode == "static" || tlsMode == "auto" {
+		r.WatchPlaintext(ctx)
+	}
 	r.InstallPlugin(&c)
 	var cl *plugin.Client
 	var first *plugin.Client
@@ -200,7 +203,7 @@ func runC14(r *h.Run) {
 		// somebody else launched it (plain configuration that can start it), we attach
 		lc := c
 		lc.Mux = false
-		lc.TweakClient = func(cc *plugin.ClientConfig) { cc.TLSConfig = nil; cc.StartTimeout = 20 * time.Second }
+		lc.TweakClient = func(cc *plugin.ClientConfig) { cc.TLSConfig = hostTLS; cc.StartTimeout = 20 * time.Second }
 		first = r.NewClient(lc)
 		if o := r.DoNoHang("Launcher.Start", 90*time.Second, ctx, func() (any, error) { return first.Start() }); o.Err != nil || o.Hung {
 			r.Violate("setup", "launcher start "+ctx, fmt.Sprint(o.Err))
